@@ -445,6 +445,10 @@ impl Work {
 /// Exhaustive DFS over choice sequences with at most `bound` non-default choices.
 pub fn explore<S: Scenario>(s: &S, cfg: &ExploreCfg, rep: &Reporter) -> ExploreStats {
 	install_hooks();
+	// `verif replay` of an enumeration case: explorations are not part of it
+	if rep.replay_filter.is_some() {
+		return ExploreStats { exhausted: true, ..Default::default() };
+	}
 	// debugging aid: restrict a run to the scenarios whose name contains $VERIF_ONLY (the run is then reported as not exhaustive)
 	if let Ok(only) = std::env::var("VERIF_ONLY") {
 		if !s.name().contains(&only) {
